@@ -3,6 +3,13 @@ input -> the real liblzma encoder (ctypes) -> bytes; liblzma's own matching deco
 decoder/tokeniser; events for spec/TraceEncLz.tla, spec/TraceEncLzma2.tla and spec/TraceEncXzFile.tla.
 
 Nothing here decides the properties: acceptance is decided by the TLA+ trace specs that read the events.
+
+Conventions: 'flush' = full is mapped to LZMA_SYNC_FLUSH for raw/Block encoders (they have no LZMA_FULL_FLUSH) and
+'sync' to LZMA_FULL_FLUSH for the threaded encoder; chains with a BCJ filter are fed in one piece without flushes, so that
+the expected input of the LZMA2 encoder is the whole-buffer BCJ conversion of the independent filter code (a flush makes
+the BCJ encoder pass its look-ahead bytes through unconverted, which is legal but not a function of the input alone).
+A Block made by lzma_block_encoder / lzma_block_buffer_encode is completed to a Stream with liblzma's public
+header / index / footer encoders so that one judge handles every .xz producer.
 """
 import ctypes as C, hashlib, os, random, struct
 from harness.pydrv import lz
